@@ -729,6 +729,12 @@ class Arbiter(object):
         if not name:
             raise ValueError("command name shouldn't be empty")
 
+        try:
+            # the name goes into the topic of every event of the watcher
+            name.encode('utf-8')
+        except UnicodeError:
+            raise ValueError("watcher name %r cannot be encoded" % name)
+
         watcher = Watcher(name, cmd, **kw)
         if self.evpub_socket is not None:
             watcher.initialize(self.evpub_socket, self.sockets, self)
